@@ -40,7 +40,7 @@ PROPS = {
         'not_decided': 'cone towers, quadratic encodings, brute-force agreement (numeric)',
     },
     'C08': {
-        'rules': ['R14'],
+        'rules': ['R14', 'R07'],
         'decided': 'complete case analysis of the LP dual over the finite orderings of '
                    '(lb, ub, 0, +-inf); bound-row sign table',
         'not_decided': 'SOC/exp/LMI dual blocks, strong duality',
@@ -101,7 +101,7 @@ PROPS = {
         'not_decided': 'operator paths outside the sink table',
     },
     'C18': {
-        'rules': ['R22', 'R04'],
+        'rules': ['R22', 'R04', 'R07'],
         'decided': 'to_socp derives each field from the same field by prefix-preserving '
                    'operations, passes lmi through, does not write self',
         'not_decided': 'the 1e-3 accuracy claim',
